@@ -747,6 +747,9 @@ FIXED = {
     "formula-terms:variable-of-two-terms-read-twice",              # C01-fix2-22
     "formula-terms:vertical-datum-not-carried-by-a-grid-mapping",  # C01-fix2-23, -24
     "formula-terms:grid-mapping-lists-the-vertical-coordinate",    # C01-fix2-23
+    "bounds-dimension-name-shared-by-size",                        # C01-fix3-3
+    "index-variable-sample-dimension-name",                        # C01-fix3-1 (names of a compressed case)
+    "equal-dimension-coordinates-share-a-netcdf-dimension",        # C01-fix3-2 (square family)
 }
 
 
@@ -1109,7 +1112,7 @@ def correspondence(chk, cases, rows, explained, stats):
             continue
         spec, opts = c["spec"], c["options"]
         names_ok = all(printable(x) for x in json.dumps(spec))
-        if in_model(spec, opts) and names_ok and not expected_findings(spec, {}):
+        if in_model(spec, opts) and names_ok and not [e for e in expected_findings(spec, {}) if e not in FIXED]:
             wl.append("(%s, %s, %s)" % (g_opts(opts), g_skel(spec, opts), g_ads(r["raw"])))
             wc.append((c, r))
         if raw_in_model(r["raw"]) and "rskel" in r and r.get("n_read") == 1 and spec["kind"] == "field" and \
